@@ -78,8 +78,8 @@ pub enum Op {
     Tick,
     PolicyStep,
     Drain { clear_first: bool },
-    /// E2: run `actions` at the `nth` occurrence of yield point `at` during the next op
-    Interpose { at: String, nth: usize, actions: Vec<Op> },
+    /// E2: run `actions` at the `nth` occurrence of yield point `at` while `then` executes
+    Interpose { at: String, nth: usize, actions: Vec<Op>, then: Box<Op> },
 }
 
 #[derive(Clone, Debug, PartialEq, Eq, Serialize, Deserialize, Hash)]
@@ -207,6 +207,9 @@ struct ValInfo {
     in_place: bool,
     /// a remove/clear that took effect after it was written
     dead: bool,
+    /// written by an interposed action while a clear() was under way: may survive it or be
+    /// dropped by it without callback
+    lenient: bool,
 }
 
 struct Model {
@@ -240,6 +243,16 @@ impl Model {
 // interpreter
 // ------------------------------------------------------------------------------------------
 
+/// what an interposed action did (recorded inside the yield hook, absorbed afterwards)
+#[derive(Clone, Debug)]
+pub enum NObs {
+    Ins { k: u64, v: Val, r: Result<bool, String> },
+    Rem { k: u64, r: Result<(), String> },
+    Get { k: u64, got: Option<Val> },
+    Step(String),
+    Cleared(Result<(), String>),
+}
+
 pub struct Report {
     pub failures: Vec<Failure>,
     pub feats: Feats,
@@ -257,13 +270,14 @@ const P_C09: &[&str] = &["C09"];
 
 pub struct Interp<'a> {
     cfg: &'a Config,
-    sut: Box<dyn Sut>,
+    sut: std::rc::Rc<dyn Sut>,
+    nested: std::rc::Rc<std::cell::RefCell<Vec<NObs>>>,
     m: Model,
     vals: HashMap<Val, ValInfo>,
     /// accepted values per logical key, in write order (for remove kills)
     written: HashMap<u64, Vec<Val>>,
     epoch: u32,
-    serial: u32,
+    serial: std::rc::Rc<std::cell::Cell<u32>>,
     step: usize,
     pub failures: Vec<Failure>,
     pub feats: Feats,
@@ -282,6 +296,7 @@ pub struct Interp<'a> {
     lost_once: BTreeSet<u64>,
     lookups_since_clear: u64,
     all_deadlines: Vec<i64>,
+    interposed_serial_base: u32,
     any_err: bool,
     /// stop evaluating (something voided the rest of the case)
     halted: bool,
@@ -315,9 +330,9 @@ impl<'a> Interp<'a> {
             validator: cfg.validator,
             keys: cfg.keys.clone(),
         };
-        let sut: Box<dyn Sut> = match cfg.flavour {
-            Flavour::Sync => Box::new(SyncSut::build(&b).map_err(|e| e.to_string())?),
-            Flavour::Async => Box::new(AsyncSut::build(&b).map_err(|e| e.to_string())?),
+        let sut: std::rc::Rc<dyn Sut> = match cfg.flavour {
+            Flavour::Sync => std::rc::Rc::new(SyncSut::build(&b).map_err(|e| e.to_string())?),
+            Flavour::Async => std::rc::Rc::new(AsyncSut::build(&b).map_err(|e| e.to_string())?),
         };
         let internal = if cfg.ignore_internal_cost {
             0
@@ -332,6 +347,7 @@ impl<'a> Interp<'a> {
         Ok(Interp {
             cfg,
             sut,
+            nested: Default::default(),
             m: Model {
                 now,
                 store: BTreeMap::new(),
@@ -353,7 +369,7 @@ impl<'a> Interp<'a> {
             vals: HashMap::new(),
             written: HashMap::new(),
             epoch: 0,
-            serial: 0,
+            serial: Default::default(),
             step: 0,
             failures: Vec::new(),
             feats,
@@ -369,6 +385,7 @@ impl<'a> Interp<'a> {
             lost_once: BTreeSet::new(),
             lookups_since_clear: 0,
             all_deadlines: Vec::new(),
+            interposed_serial_base: 0,
             any_err: false,
             halted: false,
         })
@@ -415,11 +432,72 @@ impl<'a> Interp<'a> {
     }
 
     fn new_val(&mut self, k: u64, tag: u32) -> Val {
-        self.serial += 1;
+        self.serial.set(self.serial.get() + 1);
         Val {
             key: k as u32,
-            serial: self.serial,
+            serial: self.serial.get(),
             tag,
+        }
+    }
+
+    /// take over what interposed actions did: register the values they wrote, check what
+    /// their lookups returned
+    fn absorb_nested(&mut self) {
+        let obs: Vec<NObs> = std::mem::take(&mut *self.nested.borrow_mut());
+        for o in obs {
+            match o {
+                NObs::Ins { k, v, r } => {
+                    self.tr(|| format!("    (interposed) insert(k{}, {}) = {:?}", k, v, r));
+                    match r {
+                        Ok(true) => self.accept(k, v, false),
+                        Ok(false) => {}
+                        Err(_) => {
+                            self.any_err = true;
+                            self.feats.errs += 1;
+                        }
+                    }
+                }
+                NObs::Rem { k, r } => {
+                    self.tr(|| format!("    (interposed) remove(k{}) = {:?}", k, r));
+                    if r.is_err() {
+                        self.any_err = true;
+                        self.feats.errs += 1;
+                    }
+                }
+                NObs::Get { k, got } => {
+                    self.tr(|| format!("    (interposed) get(k{}) = {:?}", k, got));
+                    self.lookups_since_clear += 1;
+                    if let Some(v) = got {
+                        if v.key as u64 != k {
+                            self.fail("lookup_other_key", &["C02", "C18"], format!("interposed lookup of key {} returned {}", k, v));
+                        } else if !self.vals.contains_key(&v) {
+                            self.fail("lookup_unaccepted", P_C02, format!("interposed lookup of key {} returned {} which no insert accepted", k, v));
+                        }
+                    }
+                }
+                NObs::Step(what) => {
+                    self.tr(|| format!("    (interposed) {}", what));
+                }
+                NObs::Cleared(r) => {
+                    self.tr(|| format!("    (interposed) clear() = {:?}", r));
+                    self.epoch += 1;
+                    let epoch = self.epoch;
+                    let from = self.interposed_serial_base;
+                    for (v, info) in self.vals.iter_mut() {
+                        if v.serial > from {
+                            // written by the interposed op or its actions: concurrent with this clear
+                            info.epoch = epoch;
+                            info.lenient = true;
+                        } else {
+                            info.dead = true;
+                        }
+                    }
+                    self.lookups_since_clear = 0;
+                    if r.is_err() {
+                        self.any_err = true;
+                    }
+                }
+            }
         }
     }
 
@@ -444,6 +522,7 @@ impl<'a> Interp<'a> {
 
     /// record callback events in the value ledger; flags double reports right away
     fn note_events(&mut self, log: &[Ev]) {
+        self.absorb_nested();
         for e in log {
             match e {
                 Ev::Empty(which) => {
@@ -596,7 +675,7 @@ impl<'a> Interp<'a> {
                         info.evicts,
                         info.rejects
                     ));
-                } else if n == 0 && info.epoch == self.epoch {
+                } else if n == 0 && info.epoch == self.epoch && !info.lenient {
                     bad.push(format!("{} accepted but neither resident nor handed to a callback", v));
                 }
             }
@@ -1608,6 +1687,7 @@ impl<'a> Interp<'a> {
                 }
             }
         }
+        let serial_at_call = self.serial.get();
         let (r, steps) = self.sut.clear(pre);
         let log = self.sut.take_log();
         let nsteps = steps.len();
@@ -1624,10 +1704,17 @@ impl<'a> Interp<'a> {
             }
         }
         self.note_events(&log);
-        // everything written so far is now "before the latest clear"
+        // everything written before the call is now "before the latest clear"; what interposed
+        // actions wrote during the call is concurrent with it
         self.epoch += 1;
-        for (_, info) in self.vals.iter_mut() {
-            info.dead = true;
+        let epoch = self.epoch;
+        for (v, info) in self.vals.iter_mut() {
+            if v.serial > serial_at_call {
+                info.epoch = epoch;
+                info.lenient = true;
+            } else {
+                info.dead = true;
+            }
         }
         let ks: Vec<u64> = self.written.keys().copied().collect();
         for k in ks {
@@ -1853,7 +1940,113 @@ impl<'a> Interp<'a> {
         self.set_now(target);
     }
 
+    /// E2: execute `then` with a thread-local yield hook that runs `actions` (other roles' atomic
+    /// steps) at the nth occurrence of yield point `at`. The model cannot follow an interleaved
+    /// execution: from here on only the history/invariant oracles apply.
+    fn run_interposed(&mut self, at: &str, nth: usize, actions: &[Op], then: &Op) {
+        if matches!(then, Op::Interpose { .. } | Op::Wait | Op::Drain { .. }) {
+            return;
+        }
+        self.desync("interposition");
+        self.feats.interposed += 1;
+        self.interposed_serial_base = self.serial.get();
+        let key_of = |o: &Op| match o {
+            Op::Insert { k, .. } | Op::InsertIfPresent { k, .. } | Op::Remove { k } | Op::Get { k } | Op::GetMut { k, .. } => Some(*k % self.cfg.keys.len() as u64),
+            _ => None,
+        };
+        let outer_key = key_of(then);
+        // the processor arms carry the key of the item they are about to handle: approximate by
+        // "some action touches a key that has work buffered or is resident"
+        if actions.iter().any(|a| key_of(a).is_some() && (outer_key.is_none() || key_of(a) == outer_key)) {
+            self.feats.interposed_same_key += 1;
+        }
+        let sut = self.sut.clone();
+        let nested = self.nested.clone();
+        let serial = self.serial.clone();
+        let actions: Vec<Op> = actions.to_vec();
+        let at: String = at.to_string();
+        let nkeys = self.cfg.keys.len() as u64;
+        let mut seen = 0usize;
+        let mut fired = false;
+        stretto::verif::set_thread_yield_hook(Some(Box::new(move |id| {
+            if fired || id != at {
+                return;
+            }
+            if seen < nth {
+                seen += 1;
+                return;
+            }
+            fired = true;
+            for a in actions.iter() {
+                match a {
+                    Op::Insert { k, cost, ttl, tag } => {
+                        let k = *k % nkeys;
+                        serial.set(serial.get() + 1);
+                        let v = Val { key: k as u32, serial: serial.get(), tag: *tag };
+                        let r = sut.insert(k, v, *cost, dur(*ttl));
+                        nested.borrow_mut().push(NObs::Ins { k, v, r });
+                    }
+                    Op::InsertIfPresent { k, cost, tag } => {
+                        let k = *k % nkeys;
+                        serial.set(serial.get() + 1);
+                        let v = Val { key: k as u32, serial: serial.get(), tag: *tag };
+                        let r = sut.insert_if_present(k, v, *cost);
+                        nested.borrow_mut().push(NObs::Ins { k, v, r });
+                    }
+                    Op::Remove { k } => {
+                        let k = *k % nkeys;
+                        if sut.is_async() && sut.pending().0 >= sut.buffer_cap() {
+                            continue;
+                        }
+                        let r = sut.remove(k);
+                        nested.borrow_mut().push(NObs::Rem { k, r });
+                    }
+                    Op::Get { k } => {
+                        let k = *k % nkeys;
+                        let got = sut.get(k).map(|g| g.0);
+                        nested.borrow_mut().push(NObs::Get { k, got });
+                    }
+                    Op::UpdateMaxCost { m } => sut.update_max_cost(*m),
+                    Op::ProcInsert => {
+                        if let Some(r) = sut.try_step_insert() {
+                            nested.borrow_mut().push(NObs::Step(format!("processor: insert arm -> {:?}", r)));
+                        }
+                    }
+                    Op::Tick => {
+                        if let Some(r) = sut.try_step_cleanup() {
+                            nested.borrow_mut().push(NObs::Step(format!("cleanup tick -> {:?}", r)));
+                        }
+                    }
+                    Op::PolicyStep => {
+                        sut.try_step_policy();
+                    }
+                    Op::Clear { pre } => {
+                        // only a client role may be interposed with a clear(): inside a processor
+                        // step the processor could never acknowledge it
+                        if sut.processor_free() && sut.is_async() {
+                            let (r, _steps) = sut.clear_nested(*pre);
+                            nested.borrow_mut().push(NObs::Cleared(r));
+                        }
+                    }
+                    _ => {}
+                }
+            }
+        })));
+        // run the outer op through the ordinary path (desynced: history oracles only)
+        let then = then.clone();
+        self.exec_inner(&then);
+        stretto::verif::set_thread_yield_hook(None);
+        self.absorb_nested();
+        let log = self.sut.take_log();
+        self.note_events(&log);
+        self.check_invariants("after interposed step");
+    }
+
     pub fn exec(&mut self, op: &Op) {
+        self.exec_inner(op);
+    }
+
+    fn exec_inner(&mut self, op: &Op) {
         if self.halted {
             return;
         }
@@ -1890,8 +2083,9 @@ impl<'a> Interp<'a> {
                 self.op_policy_step();
             }
             Op::Drain { clear_first } => self.drain(*clear_first),
-            Op::Interpose { .. } => {
-                // handled by the E2 driver (interpose.rs); inert here
+            Op::Interpose { at, nth, actions, then } => {
+                self.run_interposed(at, *nth, actions, then);
+                return;
             }
         }
         let is_client = matches!(
